@@ -131,7 +131,8 @@ class GQ:
 
     def edges_reachable(self, blocked=()):
         r = self.reach_fwd([self.g.entry], blocked=blocked)
-        return [i for i, (a, b, ev) in enumerate(self.E) if a in r and i not in set(blocked)]
+        bl = set(blocked)
+        return [i for i, (a, b, ev) in enumerate(self.E) if ev is not None and a in r and i not in bl]
 
     # ---------------------------------------------------------------- counting
 
